@@ -14,6 +14,9 @@ fn usage() -> i32 {
 }
 
 fn main() {
+    // error values of the code under test capture backtraces when these are set: slow and noisy
+    std::env::set_var("RUST_BACKTRACE", "0");
+    std::env::set_var("RUST_LIB_BACKTRACE", "0");
     kernel::guard::install_silent_hook();
     let args: Vec<String> = std::env::args().skip(1).collect();
     let code = match args.first().map(|s| s.as_str()) {
